@@ -122,6 +122,20 @@ fdname(int fd, char *out, size_t n)
 	out[r] = 0;
 }
 
+/* options whose operand is the next argument: that operand is neither an option nor the input file */
+static int
+takesvalue(const char *a)
+{
+	static const char *const valopt[] = {"-o", "-L", "-l", "--dynamic-linker", "-I", "-D", "-U", "-include", "-idirafter", "-isystem", "-iquote", "-MF", "-MT", "-x", NULL};
+	int k;
+
+	for (k = 0; valopt[k]; ++k) {
+		if (strcmp(a, valopt[k]) == 0)
+			return 1;
+	}
+	return 0;
+}
+
 int
 main(int argc, char *argv[])
 {
@@ -231,7 +245,7 @@ main(int argc, char *argv[])
 		infd = 0;
 		if (fstat(0, &st) == 0 && S_ISFIFO(st.st_mode)) {
 			logf_("input <stdin-pipe>\n");
-		} else if (argc > 1 && argv[argc - 1][0] != '-' && (argc < 3 || strcmp(argv[argc - 2], "-o") != 0) && stat(argv[argc - 1], &st) == 0 && S_ISREG(st.st_mode)) {
+		} else if (argc > 1 && argv[argc - 1][0] != '-' && (argc < 3 || !takesvalue(argv[argc - 2])) && stat(argv[argc - 1], &st) == 0 && S_ISREG(st.st_mode)) {
 			infd = open(argv[argc - 1], O_RDONLY);
 			logf_("input %s\n", argv[argc - 1]);
 		} else {
